@@ -228,6 +228,17 @@ def run(run):
         if rb.violated != inv:
             raise xl.MachineryError(f'design variant {bad} was not rejected by TLC ({inv}); got {rb.violated}')
         run.laws[f'variant {bad} rejected'] = rb.violated
+    # the machine refines the path skeleton XlEvalPath (TLC, same instance); the skeleton's invariant - the stack is a simple
+    # path of the reference graph, a cycle report carries its witness - is inductive for ALL graphs on 8 cells (Apalache)
+    run.tlc('MC_C06', 'C06_refines_path.cfg', timeout=900)
+    rb = run.tlc('MC_C06', 'C06_bad_refines_path.cfg', expect_violation=True, timeout=600)
+    if 'Action property' not in rb.out or 'is violated' not in rb.out:
+        raise xl.MachineryError('the machine without a cycle check was not rejected as a refinement of XlEvalPath')
+    run.laws['variant C06_bad_refines_path.cfg rejected'] = 'RefinesPath'
+    run.apalache('MC_EvalPathApa', 'ConstInit8', 'Init', 'IndInv', 0)
+    run.apalache('MC_EvalPathApa', 'ConstInit8', 'IndInit', 'IndInv', 1)
+    run.apalache('MC_EvalPathApa', 'ConstInit8Bad', 'IndInit', 'IndInv', 1, expect_violation=True)
+    run.laws['variant ConstInit8Bad rejected (Apalache)'] = 'IndInv not inductive without the path check'
     finals = {}
     for b in pool.dump_blocks(r.dump, skip_substr='outcome = "running"'):
         st = pool.parse_block(b)
